@@ -221,13 +221,19 @@ def mrScan (h : Bytes) : Nat → Int → Nat → Bool → P Int
         else mrScan h fuel (n + 1) quotes false
     else .ok n
 
+/-- `bytes.TrimLeft(b, " \t")` / `bytes.Trim(b, " \t")`: optional whitespace is SP or HTAB
+    (forEachMediaRange and getOffer after the C09 fixes 3ad7bde / 5f398b2) -/
+def isOWSb (c : Nat) : Bool := c == 32 || c == 9
+def trimLeftOWS (s : Bytes) : Bytes := s.dropWhile isOWSb
+def trimBothOWS (s : Bytes) : Bytes := ((trimLeftOWS s).reverse.dropWhile isOWSb).reverse
+
 /-- `for len(header) > 0 { … }`; returns the media ranges handed to `functor` -/
 def mediaRanges (hasDQuote : Bool) : Nat → Bytes → List Bytes → P (List Bytes)
   | 0, _, _ => .error .fuel
   | fuel + 1, header, acc =>
     if header = [] then .ok acc
     else
-      let header := trimLeft header 32
+      let header := trimLeftOWS header
       (if hasDQuote then mrScan header (header.length + 1) 0 0 false
        else .ok (let n := indexByteI header 44; if n = -1 then (header.length : Int) else n)) >>= fun n =>
       sliceTo header n >>= fun mr =>
@@ -342,7 +348,7 @@ def acceptsCharsets (h : Bytes) (offers : List Bytes) : P Bytes :=
   | o0 :: _ =>
     if h = [] then .ok o0
     else forEachMediaRange h >>= fun rs =>
-      let specs := rs.map fun r => trim r 32
+      let specs := rs.map fun r => trimBothOWS r
       let sorted := if specs.length > 1 then sortSpecs specs else specs
       .ok ((sorted.findSome? fun s => offers.find? fun o => o ≠ [] && acceptsOffer s o).getD [])
 
